@@ -96,6 +96,13 @@ impl TransportIntegrity {
         Err(self.discard_message(message))
     }
 
+    #[cfg(rustun_verif)]
+    pub fn verif_markers(&self) -> Vec<TransactionId> {
+        let mut v: Vec<TransactionId> = self.transactions.iter().copied().collect();
+        v.sort();
+        v
+    }
+
     pub fn signal_protection_violated_on_timeout(
         &mut self,
         transaction_id: &TransactionId,
